@@ -188,3 +188,42 @@ func VP_C02_mint_then_verify() {
 	vpAssert(ok, "a-freshly-minted-token-is-accepted")
 	vpAssert(tun.TargetServer == server && tun.RemoteAddr == ip, "accepted-token-binds-the-tunnel-to-the-minted-host-and-address")
 }
+
+//vp:property C07 C02
+//vp:bounds two tunnels present two different validly signed gateway tokens one after the other: A's carries host and address claims (2 symbolic bytes each); B's carries symbolic ones or lacks either member (a token of unusual but legal shape); the IdP honours both access tokens
+//vp:assume as VP_C02_verify; JSON decoding leaves the fields of absent members untouched
+//vp:reach both-accepted
+func VP_C07_cookie_isolation() {
+	vpResetJose()
+	vpSetKeys()
+	present := func(n string, lacksServer, lacksIP bool) *protocol.Tunnel {
+		vpParseCalls, vpSigAlgs, vpTokAlgs, vpClaimsKeyLog = 0, nil, nil, nil
+		vpTokClaimsMade = true
+		vpTokIssuer, vpTokSubject = "rdpgw", "u"+n
+		vpTokExp, vpTokNbf, vpTokIat = nil, nil, nil
+		vpTokCustom = customClaims{RemoteServer: vpStringN("server-"+n, 2), ClientIP: vpStringN("ip-"+n, 2), AccessToken: "at" + n}
+		vpTokLacks = [3]bool{lacksServer, lacksIP, false}
+		id := identity.NewUser()
+		tun := &protocol.Tunnel{User: id}
+		ok, _ := CheckPAACookie(vpCtxWith(tun, id), "cookie-"+n)
+		vpAssume(ok)
+		return tun
+	}
+	vpIdpPerCall = true // a correctly signed, unexpired gateway cookie each time; the IdP verdict is per call
+	defer func() { vpIdpPerCall = false }()
+	tunA := present("A", false, false)
+	hostA, ipA := vpTokCustom.RemoteServer, vpTokCustom.ClientIP
+	lacksServer, lacksIP := vpBool("b-lacks-host-claim"), vpBool("b-lacks-address-claim")
+	tunB := present("B", lacksServer, lacksIP)
+	vpReach("both-accepted")
+	wantHost, wantIP := vpTokCustom.RemoteServer, vpTokCustom.ClientIP
+	if lacksServer {
+		wantHost = ""
+	}
+	if lacksIP {
+		wantIP = ""
+	}
+	vpAssert(tunB.TargetServer == wantHost, "tunnel-host-comes-from-its-own-token-only")
+	vpAssert(tunB.RemoteAddr == wantIP, "tunnel-address-comes-from-its-own-token-only")
+	vpAssert(tunA.TargetServer == hostA && tunA.RemoteAddr == ipA, "earlier-tunnel-keeps-its-own-token-data")
+}
